@@ -230,3 +230,35 @@ Section Data.
     | None => None
     end.
 End Data.
+
+(* ------------------------------------------------------------------ Part 5: normalise, run, scale
+   expm_krylov divides vstart by its norm (unconditionally), starts the recursion from that unit vector (V[0]) and the
+   kernel multiplies the result by the norm once.  The facts are read from the source by tx/krylovnorm.py
+   (Gen.KrylovNorm.src_norm); [ref_norm] is what this model and the proofs are written for. *)
+Record normshape := {
+  ns_two_norm : bool;        (* nrmv = float(xp.linalg.norm(vstart)); assert nrmv > 0 *)
+  ns_unconditional : bool;   (* the division is not guarded by a test on nrmv *)
+  ns_out_of_place : bool;    (* vstart = vstart / nrmv (a new array), not vstart /= nrmv *)
+  ns_first_row : bool;       (* V[0] = vstart; vstart and nrmv are bound nowhere else *)
+  ns_scale_once : bool;      (* every exit returns _expm_krylov(.., nrmv, dt) = V @ (u @ (nrmv * exp(dt w) * u[0])) *)
+  ns_atol_scaled : bool      (* convergence test allclose(res, new_res, atol=1e-8 * nrmv) *)
+}.
+Definition ref_norm : normshape :=
+  {| ns_two_norm := true; ns_unconditional := true; ns_out_of_place := true; ns_first_row := true;
+     ns_scale_once := true; ns_atol_scaled := true |}.
+
+Section Wrapper.
+  Variable R : CRing.
+  Infix "*" := (rmul R).
+  Variable nrmf : vec R -> R.            (* the 2-norm *)
+  Variable inv : R -> R.
+  Variable close1 : R -> bool.           (* a guard such as np.isclose(nrmv, 1) (only used by the non-reference shape) *)
+  Variable core : vec R -> vec R.        (* first basis vector |-> V * E * e1  (the Lanczos run and the kernel without the norm factor) *)
+
+  (* the vector stored in V[0] *)
+  Definition start_of (sh : normshape) (v : vec R) : vec R :=
+    let n := nrmf v in
+    if ns_unconditional sh || negb (close1 n) then (fun i => v i * inv n) else v.
+  (* the value returned: nrmv * (V E e1) *)
+  Definition expm_wrapper (sh : normshape) (v : vec R) : vec R := fun i => nrmf v * core (start_of sh v) i.
+End Wrapper.
